@@ -1343,3 +1343,181 @@ func c02StagingTruncated(c *Check, rule string) {
 	})
 	c.Hold(rule, "updateMetadataOnDisk:staging-open", r.FI.Decl.Pos(), msg == "" && n > 0, msg)
 }
+
+// c18NullSenderNotConverted: a failure report is sent with the null reverse-path and – for a report about an
+// internationalized message – with the SMTPUTF8 flag. A next hop without SMTPUTF8 makes smtpconn convert the
+// addresses to ASCII; the empty reverse-path has nothing to convert (address.ToASCII("") fails with "missing at-sign",
+// which Mail turns into a permanent 550 5.6.7): the conversion of the sender is reached only for a non-empty sender.
+func c18NullSenderNotConverted(c *Check, rule string) {
+	c.Rule(rule, "smtpconn.C.Mail converts the reverse-path to ASCII only when it is not empty: the null sender of a failure report about an SMTPUTF8 message is handed on as it is (the report is not lost to `550 5.6.7 cannot convert sender address` at a next hop without SMTPUTF8)", 1)
+	r := c.need(rule, "internal/smtpconn", "C", "Mail")
+	if r == nil {
+		return
+	}
+	info := r.Info
+	sig := r.FI.Obj.Type().(*types.Signature)
+	var from types.Object
+	for i := 0; i < sig.Params().Len(); i++ {
+		if isStringType(sig.Params().At(i).Type()) {
+			from = sig.Params().At(i)
+		}
+	}
+	if from == nil {
+		c.Fail(rule, "C.Mail:sender", r.FI.Decl.Pos(), "undecided: no string parameter")
+		return
+	}
+	convs := r.Calls(func(info *types.Info, call *ast.CallExpr) bool {
+		return isCall(info, call, "~/framework/address.ToASCII") && len(call.Args) == 1 && objOf(info, call.Args[0]) == from
+	})
+	if len(convs) == 0 {
+		c.HoldConst(rule, "C.Mail:no-conversion", r.FI.Decl.Pos(), true, "")
+		return
+	}
+	nonEmpty := r.F.AvoidImplying(func(atom ast.Expr) (bool, bool) {
+		be, ok := ast.Unparen(atom).(*ast.BinaryExpr)
+		if !ok || (be.Op != token.EQL && be.Op != token.NEQ) {
+			return false, false
+		}
+		var other ast.Expr
+		if s, isC := constString(info, be.Y); isC && s == "" {
+			other = be.X
+		} else if s, isC := constString(info, be.X); isC && s == "" {
+			other = be.Y
+		}
+		if other == nil || objOf(info, other) != from {
+			return false, false
+		}
+		// take away the edge on which the sender is known to be non-empty
+		return be.Op == token.NEQ, true
+	})
+	path, f := r.F.Reach(Query{From: r.Entry(), Inclusive: true, Target: isPt(convs), AvoidEdge: nonEmpty, NoCorr: true})
+	c.Hold(rule, "C.Mail:null-sender", r.FI.Decl.Pos(), !f, "the conversion of the sender address is reached for the empty reverse-path: address.ToASCII(\"\") fails (missing at-sign) and Mail answers 550 5.6.7 itself – the failure report about an SMTPUTF8 message, relayed to a server without SMTPUTF8, is refused permanently and lost: "+r.F.Describe(path))
+}
+
+// c14FullMatchAnchorsWhole: `full_match` promises that the whole key has to match. Anchors bind tighter than
+// alternation: "^" + `a|b` + "$" is `^a|b$` – everything that starts with a or ends with b. With auth_map, sender
+// tables or destination_in built on table.regexp, `alice@corp|bob@corp` then also matches alice@corp.evil.org. The
+// text added in front of the expression opens a (non-capturing) group right after the anchor and the text added
+// behind closes it in front of the end anchor.
+func c14FullMatchAnchorsWhole(c *Check, rule string) {
+	c.Rule(rule, "table.regexp full_match: the anchors are put around a group that contains the user's whole expression (`^(?:` … `)$`), so that an alternation cannot escape them", 1)
+	r := c.need(rule, "internal/table", "Regexp", "Init")
+	if r == nil {
+		return
+	}
+	info := r.Info
+	var reVar types.Object
+	ast.Inspect(r.FI.Decl.Body, func(x ast.Node) bool {
+		if call, ok := x.(*ast.CallExpr); ok && isCall(info, call, "regexp.Compile", "regexp.MustCompile") && len(call.Args) == 1 {
+			if o := objOf(info, call.Args[0]); o != nil {
+				reVar = o
+			}
+		}
+		return true
+	})
+	if reVar == nil {
+		c.Fail(rule, "Regexp.Init:compiled", r.FI.Decl.Pos(), "undecided: the expression handed to regexp.Compile is not a local variable")
+		return
+	}
+	var prefixes, suffixes []string
+	ast.Inspect(r.FI.Decl.Body, func(x ast.Node) bool {
+		as, ok := x.(*ast.AssignStmt)
+		if !ok || len(as.Lhs) != 1 || len(as.Rhs) != 1 || objOf(info, as.Lhs[0]) != reVar {
+			return true
+		}
+		var parts []ast.Expr
+		var flat func(e ast.Expr)
+		flat = func(e ast.Expr) {
+			e = ast.Unparen(e)
+			if be, ok := e.(*ast.BinaryExpr); ok && be.Op == token.ADD {
+				flat(be.X)
+				flat(be.Y)
+				return
+			}
+			parts = append(parts, e)
+		}
+		flat(as.Rhs[0])
+		at := -1
+		for i, pe := range parts {
+			if objOf(info, pe) == reVar {
+				at = i
+			}
+		}
+		if at < 0 {
+			return true
+		}
+		for i, pe := range parts {
+			if s, isC := constString(info, pe); isC {
+				if i < at {
+					prefixes = append(prefixes, s)
+				} else if i > at {
+					suffixes = append(suffixes, s)
+				}
+			}
+		}
+		return true
+	})
+	anchored := false
+	okFront, okBack := true, true
+	for _, s := range prefixes {
+		if i := strings.Index(s, "^"); i >= 0 {
+			anchored = true
+			if !strings.HasPrefix(s[i+1:], "(?:") {
+				okFront = false
+			}
+		}
+	}
+	for _, s := range suffixes {
+		if i := strings.LastIndex(s, "$"); i >= 0 {
+			anchored = true
+			if i == 0 || s[i-1] != ')' {
+				okBack = false
+			}
+		}
+	}
+	if !anchored {
+		c.HoldConst(rule, "Regexp.Init:no-anchors-added", r.FI.Decl.Pos(), true, "")
+		return
+	}
+	c.Hold(rule, "Regexp.Init:anchors-around-group", r.FI.Decl.Pos(), okFront && okBack, "full_match puts `^` and `$` directly around the user's expression: with an alternation (`alice@corp\\.example|bob@corp\\.example`) the result is `^alice@corp\\.example|bob@corp\\.example$`, which matches alice@corp.example.evil.org and x-bob@corp.example – a key that only begins or ends like a listed one is accepted by auth_map, sender tables and destination_in rules built on table.regexp")
+}
+
+// c16ReplyClassRewrittenForRcptOnly: RFC 5321 §4.5.3.1.10 lets a client treat 552 as 452 when it answers RCPT ("too
+// many recipients"). As an answer to MAIL, DATA or the final dot, 552 is "message too big / storage exceeded": a
+// permanent failure. Turning every 552 into 452 makes the queue retry such a message until max_tries and report it
+// late with a 4.x.x status – a permanent failure is re-attempted.
+func c16ReplyClassRewrittenForRcptOnly(c *Check, rule string) {
+	c.Rule(rule, "smtpconn: the reply code of the next hop is rewritten (552 → 452) only for the answer to RCPT – every store into the Code of the server's reply sits in C.Rcpt: a 552 after MAIL or DATA stays permanent and is not retried", 0)
+	p := c.P
+	n := 0
+	for _, fi := range funcsOfPkgs(p, "internal/smtpconn") {
+		if fi.Decl.Body == nil {
+			continue
+		}
+		info := fi.Info()
+		ast.Inspect(fi.Decl.Body, func(x ast.Node) bool {
+			as, ok := x.(*ast.AssignStmt)
+			if !ok {
+				return true
+			}
+			for _, l := range as.Lhs {
+				fv := fieldOf(info, l)
+				if fv == nil || fv.Name() != "Code" {
+					continue
+				}
+				sel := ast.Unparen(l).(*ast.SelectorExpr)
+				t := info.TypeOf(sel.X)
+				if t == nil || !(typeIs(t, "github.com/emersion/go-smtp", "SMTPError")) {
+					continue
+				}
+				n++
+				c.SawFunc(fi.Name())
+				c.Hold(rule, "smtpconn."+refName(fi.Obj)+":code-rewrite"+itoa(n), as.Pos(), refName(fi.Obj) == "Rcpt", "the server's reply code is rewritten in "+refName(fi.Obj)+", which handles the answers to every command: a 552 given after DATA (message too big) becomes 452 – the queue retries the message until max_tries although the failure is permanent, and the report then shows a 4.x.x status")
+			}
+			return true
+		})
+	}
+	if n == 0 {
+		c.HoldConst(rule, "smtpconn:no-code-rewrite", token.NoPos, true, "")
+	}
+}
